@@ -808,6 +808,7 @@ macro_rules! mk_run {
                 let (u, _) = rw.verif_memory_usage();
                 let sl = log.lock().unwrap().sink_len;
                 let mut v = json!({"e":"ret","res":res,"usage":u,"sl":sl});
+                if let Ok(Err(e)) = &r { v["emsg"] = json!(e.to_string()); }
                 if let Err(p) = r {
                     v["msg"] = json!(panic_msg(p));
                 }
@@ -851,6 +852,7 @@ macro_rules! mk_run {
             };
             let sl = log.lock().unwrap().sink_len;
             let mut v = json!({"e":"ret","res":res,"sl":sl});
+            if let Ok(Err(e)) = &r { v["emsg"] = json!(e.to_string()); }
             if let Err(p) = r {
                 v["msg"] = json!(panic_msg(p));
             }
